@@ -554,7 +554,8 @@ async def _identity_case(loop, server_kwargs):
             allowed.add(id(state))
 
         def own(v):
-            return type(v).__module__.startswith("aioftp")
+            # the library's own classes, and classes derived from them (a backend a user plugs in)
+            return any(c.__module__.startswith("aioftp") for c in type(v).__mro__)
 
         def mutable(v):
             # the library's own objects and plain containers; sockets, streams, the loop and the like are the network's
